@@ -41,6 +41,13 @@ def run(model, rep, tier):
     tsrules.record_units(rep, tsrules.exploration(ctx))
     r5_stray_mutators(ctx, rep)
     r6_restore_before_fallible_teardown(ctx, rep)
+    rep.rule('C18.R7', 'exception exit through a per-test layer hook: a layer\'s testSetUp / '
+             'testTearDown is user code called from the result callbacks; when it raises, the '
+             'exception leaves the callback and the run (the drivers call startTest outside their '
+             'try and stopTest as their finally).  On every abstract path the std streams are the '
+             'original objects at each such call, unless the callback itself handles the exception '
+             'and restores them')
+    tsrules.streams_when_hook_raises(ctx, rep, 'C18.R7')
     rep.units['cfg'] = ctx.cfg_stats
 
 
